@@ -368,6 +368,22 @@ class WriterHist(Engine):
                                   f"{tag}: the name {n!r} was handed out for {handed[n]} and now belongs to {d}", cls="renamed")
                     else:
                         handed[n] = d
+            # an equal but distinct item (a second Object / Fluent with the same name, type and signature) is the
+            # same element: it must be written under the same name
+            for it in list(items["object"]) + list(items["fluent"]):
+                twin = Object(it.name, it.type, env) if isinstance(it, Object) else \
+                    Fluent(it.name, it.type, list(it.signature), env)
+                try:
+                    n1 = w.get_pddl_name(it)
+                except UPException:
+                    continue
+                try:
+                    n2 = w.get_pddl_name(twin)
+                except Exception as ex:
+                    ctx.fail("C38.lookups", f"{tag}: get_pddl_name of an equal copy of {describe(it)} raised "
+                             f"{type(ex).__name__}", cls="twin-" + type(ex).__name__)
+                ctx.check("C38.stable", n1 == n2, f"{tag}: {describe(it)} is written {n1!r}, an equal copy of it {n2!r}",
+                          cls="twin-renamed")
             for n, d in handed.items():
                 try:
                     it = w.get_item_named(n)
